@@ -165,10 +165,30 @@ def emit_order(F):
     from rules.emit import encoder_roles
     roles = encoder_roles(F)
 
+    # a `for instr in <list>.iter_mut() { fix..(instr); encode(instr) }` written out in place of the list emitter: the loop
+    # as a whole is the emission of that list (however many items it has); the per-item calls inside are not events
+    list_loops = {}
+    item_binds = {}
+    for m_ in walk(blk):
+        if m_.get("k") == "Match" and m_.get("src") == "ForLoopDesugar":
+            src_ = _prov_field(m_["scrut"], binds)
+            if src_ in ("before", "after", "alternate"):
+                inner_ = [x for x in walk(m_["arms"][0]["body"]) if x.get("k") == "Match" and x is not m_]
+                hs = {b["hid"] for arm in (inner_[0]["arms"] if inner_ else []) for b in walk(arm["pat"]) if b.get("k") == "Binding"}
+                if any(x.get("k") == "Call" and roles.get(x.get("callee")) in ("ENC", "FIXENC") and any(y.get("k") == "Path" and y.get("res", {}).get("hid") in hs for a_ in x["args"] for y in walk(a_))
+                       for x in walk(m_["arms"][0]["body"])):
+                    list_loops[id(m_)] = src_
+                    for h_ in hs:
+                        item_binds[h_] = src_
+
     def classify(n):
+        if id(n) in list_loops:
+            return "emit:%s" % list_loops[id(n)]
         if n.get("k") == "Call" and n.get("callee"):
             if roles.get(n["callee"]) in ("ENC", "FIXENC") and n["args"]:
                 opa = next((a_ for a_ in n["args"] if "Operator" in (a_.get("ty") or "")), n["args"][0])
+                if any(y.get("k") == "Path" and y.get("res", {}).get("hid") in item_binds for y in walk(opa)):
+                    return None      # one item of a list loop (see list_loops)
                 src = _prov_field(opa, binds)
                 return "emit:%s" % src
         if n.get("k") == "Path" and n.get("res", {}).get("hid") == at_end_hid and at_end_hid is not None:
@@ -213,7 +233,7 @@ def emit_order(F):
             if "else" in node:
                 scan(node["else"], conds + [("F", node["cond"])])
             return
-        if k == "Call":
+        if k == "Call" or (k == "Match" and id(node) in list_loops):
             lab = classify(node)
             if lab:
                 guards.setdefault(lab, []).append(list(conds))
